@@ -200,7 +200,11 @@ func (r *Run) genOpt(depth int) gnode {
 }
 
 func (r *Run) genOptCode(c uint16, depth int) gnode {
-	r.Count(fmt.Sprintf("opt=%d", c))
+	if isKnownV6(c) {
+		r.Count(fmt.Sprintf("opt=%d", c))
+	} else {
+		r.Count("opt=unknown-code")
+	}
 	sub := func(maxN int) (dhcpv6.Options, []byte) {
 		if depth <= 0 {
 			return nil, nil
